@@ -476,6 +476,7 @@ type nhCluster struct {
 	shard        uint64
 	shards       []uint64
 	slowUs       int
+	emptyImage   bool // on-disk state machines write an empty image while they have applied nothing
 	armOnRecover bool
 	ssShards     uint64
 	smType       string // regular | concurrent | ondisk
